@@ -137,6 +137,7 @@ func (c *Ctx) RunDocs(fams []string, fn DocFn) {
 			workload.W1Width(sink)
 			workload.W7AdjacentInDocs(sink)
 			workload.W1Pow(sink)
+			workload.W1First(sink)
 		case "W2T":
 			workload.W2T(c.Thorough(), sink)
 		case "W2small": // a smaller sample for monitors whose per-case cost is high
